@@ -21,7 +21,9 @@ RULE = (
     "0.55..1.2, temperature 80..400 F and pressure 10..14000 psia through the Sutton hydrocarbon polynomials "
     "(the default build_pvt_gas range). Each case evaluates z_factor_DAK at p and at p(1+1e-4) and "
     "z_factor_hallyarbrough at (p_r, T_r) under a line-event cap. Non-trivial = p_r > 0.5 (Z differs from 1 by "
-    "more than 1e-3). Distinct = hash of the case record."
+    "more than 1e-3). One case in sixteen is a short build_pvt_gas table (maximum pressure 25..400 psia handed over as float, "
+    "Python / numpy int or by keyword; reservoir temperature with a fractional part in half of them): every tabulated Z must "
+    "equal z_factor_DAK at that row and be a root of the equation of state. Distinct = hash of the case record."
 )
 ASSUMPTIONS = [
     "the Dranchuk-Abou-Kassem equation is the published 11-constant form written in vf/refs.py (C1 = A1 + A2/T_r + ...)",
@@ -39,6 +41,14 @@ LEVEL_TEXT = (
 
 @st.composite
 def strategy_(draw):
+    if draw(st.integers(0, 15)) == 0:
+        # the tabulated Z (build_pvt_gas()['z-factor'], the form in which the flow module consumes it): a short table for
+        # a generated composition; the maximum pressure as float / int / keyword, temperatures with a fractional part
+        comp = draw(gens.gas_composition())
+        if draw(st.booleans()):
+            comp = dict(comp, T=math.floor(comp["T"]) + draw(st.sampled_from([0.5, 0.21375, 0.9, 0.75])))
+        pmax = draw(st.one_of(st.integers(3, 40).map(lambda k: 10.0 * k), st.integers(25, 400).map(float), st.floats(25.0, 400.0)))
+        return {"src": "table", "comp": comp, "pmax": pmax, "pmax_form": draw(forms.pmax_form())}
     if draw(st.integers(0, 3)) == 0:
         sg = draw(st.floats(0.55, 1.2))
         T = draw(st.floats(80.0, 400.0))
@@ -112,10 +122,53 @@ def known_match(case, v):
     return None
 
 
+def check_table(case, res):
+    """Every tabulated Z is the value of z_factor_DAK at that row's pressure and the supplied reservoir temperature,
+    and a root of the equation of state there (of either form of the first coefficient: which one is decided by the
+    scalar cases, where the known finding is classified)."""
+    import numpy as np
+    from bluebonnet.fluids import build_pvt_gas
+    from bluebonnet.fluids import gas as G
+
+    comp, pmax = case["comp"], case["pmax"]
+    nh = G.make_nonhydrocarbon_properties(comp["N2"], comp["H2S"], comp["CO2"])
+    tpc, ppc = lib("pseudocritical_point_Sutton", G.pseudocritical_point_Sutton, comp["sg"], nh, comp["dryness"])
+    T = comp["T"]
+    tr = (T + 459.67) / (tpc + 459.67)
+    res.labels["src"] = "table"
+    if not (1.05 <= tr <= 3.0 and ppc > 0 and pmax / ppc <= 30.0):
+        res.skipped = "Sutton point puts the table outside the correlation's rectangle"
+        return res
+    gv = {"N2": comp["N2"], "H2S": comp["H2S"], "CO2": comp["CO2"], "Gas Specific Gravity": comp["sg"], "Reservoir Temperature (deg F)": T}
+    df = lib("build_pvt_gas", forms.call_with_pmax, build_pvt_gas, gv, comp["dryness"], pmax, case["pmax_form"])
+    res.labels["pmax_form"] = case["pmax_form"] + ("" if float(pmax).is_integer() else " (not whole: float)")
+    res.labels["T_fractional"] = not float(T).is_integer()
+    pcol = np.asarray(df["pressure"], float)
+    zcol = np.asarray(df["z-factor"], float)
+    want_p = np.arange(10.0, pmax, 10.0)
+    if pcol.shape != want_p.shape or not np.allclose(pcol, want_p, rtol=1e-13, atol=0.0):
+        res.bad("C06/table-grid", f"pressure column {pcol[:3]}..{pcol[-1:]} ({pcol.size} rows), expected arange(10, {pmax!r}, 10)")
+        return res
+    res.nontrivial = len(want_p) >= 3
+    for q, zt in zip(want_p, zcol):
+        if not (math.isfinite(zt) and zt > 0):
+            res.bad("C06/finite-positive", f"tabulated Z={zt!r} at p={q!r} ({gv}, pmax={pmax!r})")
+            break
+        zs = float(lib("z_factor_DAK", G.z_factor_DAK, T, float(q), tpc, ppc))
+        ok1 = res.check("C06/table-row-is-the-scalar-value", abs(zt - zs), 1e-12 * zs, f"build_pvt_gas z-factor {zt!r} at p={q!r} vs z_factor_DAK({T!r}, {q!r}, ...)={zs!r} ({gv}, pmax={pmax!r} as {case['pmax_form']});")
+        g = min(abs(refs.dak_residual(zt, tr, q / ppc, variant=False)), abs(refs.dak_residual(zt, tr, q / ppc, variant=True)))
+        ok2 = res.check("C06/table-row-is-a-root", g, 1e-8, f"tabulated Z={zt!r} at p={q!r}, T={T!r} (T_r={tr!r}) is not a root of the equation of state ({gv}, pmax={pmax!r} as {case['pmax_form']});")
+        if not (ok1 and ok2):
+            break
+    return res
+
+
 def check_case(case) -> Result:
     from bluebonnet.fluids import gas as G
 
     res = Result()
+    if case["src"] == "table":
+        return check_table(case, res)
     T, p, tpc, ppc = case["T"], case["p"], case["tpc"], case["ppc"]
     tr = (T + 459.67) / (tpc + 459.67)
     pr = p / ppc
